@@ -6,7 +6,7 @@ def run(ctx, rep):
     maxlen = 8 if ctx.thorough else 7
     rep.rule = ("token level: every token sequence <= %d the reference grammar explores, two layouts, 5 parser "
                 "configurations, each load under a 2 s watchdog; hang or an exception other than LexerError/ParseError is "
-                "a C06 violation. distinct = (config, token sequence, layout); non-trivial = >= 3 tokens" % maxlen)
+                "a C06 violation; character level: every string <= 4 (5 thorough) over an 18-character alphabet and <= 3/4 over two further alphabets (control, non-ASCII and numeric characters) explored by TLC on spec/MC_Loader.tla, 5 configurations. distinct = (config, token sequence, layout); non-trivial = >= 3 tokens" % maxlen)
     fails = tokenlevel.run_tokens(ctx, rep, maxlen, ["C06"])
     other = {}
     for prop, sig, case, detail in fails:
@@ -15,10 +15,10 @@ def run(ctx, rep):
         else:
             other[prop] = other.get(prop, 0) + 1
     rep.coverage_extra["failures_attributed_to_other_properties"] = other
-    try:
-        from . import strings
-    except ImportError:
-        return
+    from . import strings
     for prop, sig, case, detail in strings.run_strings(ctx, rep):
         if prop == "C06":
             rep.fail(sig, case, detail)
+        else:
+            other[prop] = other.get(prop, 0) + 1
+    rep.coverage_extra["failures_attributed_to_other_properties"] = other
